@@ -204,6 +204,12 @@ func emptyEnum(opts ...string) *Bundle {
 		&Element{Kind: "enum", N: &Nested{Kind: "enum", Name: "Status", Enum: &Enum{Name: "Status", Opts: opts}}})}}
 }
 
+func nestedEmptyEnum(opts ...string) *Bundle {
+	return &Bundle{Files: []*File{file([]string{"foo", "v1"}, "a",
+		&Element{Kind: "object", N: &Nested{Kind: "object", Name: "Foo", Props: []*Property{prop("x", str("string"))},
+			Subs: []*Nested{{Kind: "enum", Name: "Status", Enum: &Enum{Name: "Status", Opts: opts}}}}})}}
+}
+
 // EditCorpus: hand-written before/after pairs for C13.
 func EditCorpus() []EditPair {
 	foo := []string{"foo", "v1"}
@@ -242,6 +248,9 @@ func EditCorpus() []EditPair {
 		// and therefore replaces the implicit zero value STATUS_UNSPECIFIED by STATUS_OLD_UNSPECIFIED
 		{emptyEnum(), emptyEnum("OLD_UNSPECIFIED"), "foo.v1",
 			[]EditRec{{"option", "foo/v1/a.j5s:Status", "OLD_UNSPECIFIED", "EAppendOption 0 0 " + S("OLD_UNSPECIFIED"), ""}}, true},
+		// the known finding at depth: an enum without options nested in an object, the option appended through an address
+		{nestedEmptyEnum(), nestedEmptyEnum("OLD_UNSPECIFIED"), "foo.v1",
+			[]EditRec{{"option", "foo/v1/a.j5s:Foo.Status", "OLD_UNSPECIFIED", "EAppendIn 0 0 AtDecl [SNested 0] (AOption " + S("OLD_UNSPECIFIED") + ")", ""}}, true},
 		// seeded C13-D class, deterministic: a field referring to the type of the implicit leading field appended to
 		// a reqres request message / an upsert message (the implicit field must keep number 1, the old fields theirs)
 		{topicBundle("reqres", nil), topicBundle("reqres", fwd), "foo.v1",
